@@ -62,6 +62,8 @@ def main(argv=None):
     try:
         ctx.osyris = boot.import_osyris()
         mod = importlib.import_module("vmon.props." + a.prop.lower())
+        from . import trace
+        traced = trace.start(ctx.root)
         if hasattr(mod, "setup"):
             mod.setup(ctx)
     except Exception:  # noqa: BLE001
@@ -108,6 +110,14 @@ def main(argv=None):
             extra = mod.finish(ctx) or {}
     except Exception:  # noqa: BLE001
         extra = {"finish_error": traceback.format_exc()}
+    try:
+        if traced:
+            extra = dict(extra)
+            from .checkpoints import FOR
+            extra["trace"] = trace.report(getattr(mod, "CHECKPOINTS", FOR.get(a.prop.upper(), [])))
+            trace.stop()
+    except Exception:  # noqa: BLE001
+        extra["trace_error"] = traceback.format_exc()
     emit({"done": True, "cases": n, "wall_s": round(time.time() - t0, 3), "extra": extra})
     shutil.rmtree(a.work, ignore_errors=True)
     return 0
